@@ -76,8 +76,7 @@ func (a *az) resolveFuncValue(e ast.Expr) *fnode {
 }
 
 func (a *az) exprText(e ast.Expr) string {
-	p1, p2 := a.w.l.fset.Position(e.Pos()), a.w.l.fset.Position(e.End())
-	_ = p2
+	p1 := a.w.l.fset.Position(e.Pos())
 	switch v := unparen(e).(type) {
 	case *ast.FuncLit:
 		return "func@" + a.w.l.relPos(v.Pos())
@@ -429,11 +428,9 @@ func (a *az) boundaryArgs(c *ast.CallExpr, full string) {
 		}
 		if loc, ok := a.fieldOf(x); ok {
 			if _, isSlice := a.p.info.Types[x].Type.Underlying().(*types.Slice); isSlice {
-				switch {
-				case sliceReaders[full]:
+				if sliceReaders[full] {
 					a.record(loc+"[]", "R", x, x.Pos())
-				default:
-					_ = sliceWriters
+				} else { // sliceWriters, and anything we do not know
 					a.record(loc+"[]", "W", x, x.Pos())
 				}
 			}
